@@ -1,10 +1,120 @@
-(* C11. Statements only; proofs in AttSrv/AttSrvProofsC11.v. *)
-From BT Require Import Base.ListX AttDb.AttDbModel NQueue.NQueueModel AttSrv.AttSrvModel AttSrv.AttSrvNotifSpec
-  AttSrv.AttSrvProofsC11.
+(* C11  Indications are confirmed one at a time and never lost.
+   Statements only; proofs in AttSrv/AttSrvProofsC11.v, NQueue/NQueueProofs.v (C12), AttSrv/AttSrvFrame.v.
+
+   Model: NQueueModel.v (notification_queue, outstanding = outstanding_confirmation_index_), AttSrvModel.v:
+   att_output (= l2cap_output; since fix/C08-C11-notification-path an indication that was dequeued but not sent
+   is not left outstanding: unsent_indication), handle_confirmation, request (= the l2cap layer's callback). *)
+From BT Require Import Base.ListX AttDb.AttDbModel NQueue.NQueueModel NQueue.NQueueSpec NQueue.NQueueProofs
+  AttSrv.AttSrvModel AttSrv.AttSrvFrame AttSrv.AttSrvNotifSpec AttSrv.AttSrvSpecC11 AttSrv.AttSrvProofsC11
+  AttSrv.AttSrvNotifExamples.
 Local Open Scope N_scope.
 
-Theorem C11_bad_confirmation_leaves_state :
+(* ---- queue level (proved for C12, any level sizes, any operation sequence): the monitor of NQueueSpec.v
+   accepts every trace of the queue; its clauses deq_outst (no indication is dequeued while one is
+   outstanding), deq_pending (a dequeued request was pending and is removed: exactly once), deq_empty ('empty'
+   only if no request is eligible) and deq_round (round robin bound within a level) are the queue level of C11 *)
+Theorem C11_queue_level :
+  forall sizes ops, wf_sizes sizes -> NQueueSpec.monitor sizes (NQueueModel.run (NQueueModel.init sizes) ops) = None.
+Proof. exact monitor_accepts_model. Qed.
+Print Assumptions C11_queue_level.
+
+(* ---- server level, one l2cap_output (any configuration, any state): a Handle Value Indication (first byte
+   1D) is transmitted only when no indication is outstanding on the connection, and it is outstanding
+   afterwards; in every other case - a notification, nothing sent, in particular an indication that was taken
+   from the queue but not sent because the client is not subscribed - outstanding is what it was before *)
+Theorem C11_indication_only_when_none_outstanding :
+  forall c st cid n st' rs k,
+    get_conn st cid = Some k -> att_output c st cid n = Some (st', rs) ->
+    exists k', get_conn st' cid = Some k' /\
+      match rs with
+      | 29 :: _ => out_of k = None /\ out_of k' <> None
+      | _ => out_of k' = out_of k
+      end.
+Proof. exact att_output_outstanding. Qed.
+Print Assumptions C11_indication_only_when_none_outstanding.
+
+(* ---- along ANY history on any connections (requests of any kind, notify / indicate, polls, CCCD writes,
+   confirmations of a wrong length, traffic of other connections): once an indication is outstanding on
+   connection cid, no further indication is transmitted on cid until a Handle Value Confirmation of length 1
+   arrives on cid (or cid disconnects). Notifications are not restricted. *)
+Theorem C11_one_indication_at_a_time :
+  forall c cid ops st k,
+    get_conn st cid = Some k -> out_of k <> None ->
+    forallb (fun o => negb (ends_wait cid o)) ops = true ->
+    Forall (fun x => match fst x, snd x with OpOut i _, OBytes (29 :: _) => i <> cid | _, _ => True end) (srv_run c st ops).
+Proof. exact one_indication_at_a_time. Qed.
+Print Assumptions C11_one_indication_at_a_time.
+
+(* ---- a confirmation with a wrong length is answered with 01 1E 00 00 04 and changes nothing *)
+Theorem C11_bad_confirmation_rejected :
   forall c st cid pdu b n st' r,
-    handle_confirmation c st cid pdu b n = Some (st', r) -> len pdu <> 1 -> st' = st.
-Proof. exact confirmation_bad_length_unchanged. Qed.
-Print Assumptions C11_bad_confirmation_leaves_state.
+    5 <= n -> rd pdu 0 = Some 30 -> len pdu <> 1 ->
+    handle_confirmation c st cid pdu b n = Some (st', r) ->
+    st' = st /\ snd r = 5 /\ takeN 5 (fst r) = [1; 30; 0; 0; 4].
+Proof. exact confirmation_bad_length. Qed.
+Print Assumptions C11_bad_confirmation_rejected.
+
+(* ---- one of length 1 gets no response and ends the wait on this connection *)
+Theorem C11_confirmation_ends_the_wait :
+  forall c st cid b n k,
+    get_conn st cid = Some k ->
+    handle_confirmation c st cid [30] b n = Some (set_conn st cid (fst (nq_step k Confirm)), (b, 0))
+    /\ out_of (fst (nq_step k Confirm)) = None.
+Proof. exact confirmation_good. Qed.
+Print Assumptions C11_confirmation_ends_the_wait.
+
+(* ---- never lost. The full statement (bounded liveness): whenever an indication request for a subscribed
+   characteristic is pending on a connection, polling l2cap_output (buffer >= 23) and confirming every
+   transmitted indication transmits it after at most (number of pending requests + 1) rounds. NOT PROVED as
+   one theorem. Its parts: C11_queue_level (every pending eligible request is dequeued: deq_empty,
+   deq_round), C11_indication_only_when_none_outstanding (a request that is consumed without a PDU does
+   not block the queue - this is what the fix established; before it the statement was false, witness
+   corpus/C11/unsent_indication_blocks.trace), C11_confirmation_ends_the_wait. The monitor clause
+   indication_lost checks the composed statement on every implementation trace. *)
+Definition C11_never_lost_full : Prop :=
+  forall c ops, wf c -> monitor11 c (srv_run c (srv_init c) ops) = None.
+
+(* ---- non-vacuity *)
+Example C11_wf_nonvacuous : wf cfg_n4_mtu24 /\ wf cfg_p9_mtu65.
+Proof. split; vm_compute; reflexivity. Qed.
+
+(* cfg_n4_mtu24 (CCCDs 4, 7, 13, 16; 2a01 = characteristic 1 indicate, 2a10 = characteristic 3 notify +
+   indicate): two indications and a notification; second indication only after the confirmation; a
+   confirmation of length 2 is rejected and does not confirm *)
+Example C11_one_at_a_time_example :
+  map snd (srv_run cfg_n4_mtu24 (srv_init cfg_n4_mtu24)
+    [OpIn 0 [18; 7; 0; 2; 0] 23; OpIn 0 [18; 13; 0; 3; 0] 23; OpNotify false KInd 1; OpNotify false KInd 3; OpNotify false KNotif 3;
+     OpOut 0 5; OpOut 0 5; OpOut 0 5; OpIn 0 [30; 0] 23; OpOut 0 5; OpIn 0 [30] 23; OpOut 0 5])
+  = [OBytes [19]; OBytes [19]; OBits [true; true; true]; OBits [true; true; true]; OBits [true; true; true];
+     OBytes [29; 6; 0; 38; 49]; OBytes [27; 12; 0; 112; 123]; OBytes []; OBytes [1; 30; 0; 0; 4]; OBytes [];
+     OBytes []; OBytes [29; 12; 0; 112; 123]].
+Proof. vm_compute. reflexivity. Qed.
+
+(* the witness of the repaired defect: an indication to a client that is not subscribed is consumed without
+   a PDU and does not block the indication the client subscribed to; the monitor accepts the model's trace
+   and rejects the pre-fix behaviour (last poll empty) *)
+Example C11_unsent_indication_does_not_block :
+  let ops := [OpNotify false KInd 1; OpOut 0 23; OpIn 0 [18; 13; 0; 2; 0] 23; OpNotify false KInd 3; OpOut 0 5; OpOut 0 5] in
+  map snd (srv_run cfg_n4_mtu24 (srv_init cfg_n4_mtu24) ops)
+  = [OBits [true; true; true]; OBytes []; OBytes [19]; OBits [true; true; true]; OBytes [29; 12; 0; 112; 123]; OBytes []]
+  /\ monitor11 cfg_n4_mtu24 (srv_run cfg_n4_mtu24 (srv_init cfg_n4_mtu24) ops) = None
+  /\ monitor11 cfg_n4_mtu24
+       [(OpNotify false KInd 1, OBits [true; true; true]); (OpOut 0 23, OBytes []); (OpIn 0 [18; 13; 0; 2; 0] 23, OBytes [19]);
+        (OpNotify false KInd 3, OBits [true; true; true]); (OpOut 0 5, OBytes []); (OpOut 0 5, OBytes [])] = Some (5%nat, t11_indication_lost).
+Proof. repeat split; vm_compute; reflexivity. Qed.
+
+Example C11_monitor_rejects_second_indication_and_bad_confirmation :
+  monitor11 cfg_n4_mtu24
+    [(OpIn 0 [18; 13; 0; 2; 0] 23, OBytes [19]); (OpNotify false KInd 3, OBits [true; true; true]); (OpOut 0 5, OBytes [29; 12; 0; 112; 123]);
+     (OpNotify false KInd 3, OBits [true; true; true]); (OpOut 0 5, OBytes [29; 12; 0; 112; 123])] = Some (4%nat, t11_two_outstanding)
+  /\ monitor11 cfg_n4_mtu24 [(OpIn 0 [30; 0] 23, OBytes [])] = Some (0%nat, t11_bad_confirmation_accepted)
+  /\ monitor11 cfg_n4_mtu24
+    [(OpIn 0 [18; 13; 0; 2; 0] 23, OBytes [19]); (OpNotify false KInd 3, OBits [true; true; true]); (OpOut 0 5, OBytes [29; 12; 0; 112; 123]);
+     (OpIn 0 [30; 0] 23, OBytes [1; 30; 0; 0; 4]); (OpNotify false KInd 3, OBits [true; true; true]); (OpOut 0 5, OBytes [29; 12; 0; 112; 123])]
+     = Some (5%nat, t11_two_outstanding).
+Proof. repeat split; vm_compute; reflexivity. Qed.
+
+From BT Require gen.GenAttSrv.
+Example C11_constants_are_the_codes :
+  GenAttSrv.opcode_confirmation = 30 /\ GenAttSrv.opcode_indication = 29 /\ GenAttSrv.opcode_notification = 27.
+Proof. repeat split; reflexivity. Qed.
